@@ -798,6 +798,36 @@ def getters_setters(ix, R):
                 not clash, key='name %s in %s' % (pn, fams), detail='name %r is declared by %s' % (pn, fams))
 
 
+def _generated_items(ix, f, fl, rf):
+    """[(kind, flow of the generator, value, guards)] for the items of `self.<generator method>()`: 'one' for a single
+    yield of `value`, 'each' for a loop that yields every element of the sequence `value` (or `yield from`);
+    None when rf is not such a call or the generator does anything besides yielding"""
+    at = atom_of(fl, rf)
+    if at is None or at.head not in ('call', 'mcall') or not at.extra or not at.extra[0].startswith('fn:self.') or at.args \
+            or f.cls is None:
+        return None
+    g = ix.lookup_method(f.cls, at.extra[0][8:])
+    if g is None or not any(isinstance(n, ast.Yield) for n in ast.walk(g.node)):
+        return None
+    gfl = mkflow(ix, g)
+    if any(e.kind not in ('yield', 'loop', 'if', 'assign') for e in gfl.events):
+        return None
+    out = []
+    for y in gfl.of('yield'):
+        if any(g_.rf is None or g_.early for g_ in y.guards):
+            return None
+        if y.loops:
+            lp = y.loops[0]
+            if len(y.loops) != 1 or y.value is None or not gfl.tab.equal(y.value, gfl.tab.atom('elem', (lp.iter_rf[0], lp.index))):
+                return None
+            out.append(('each', gfl, lp.iter_rf[0], list(y.guards)))
+        else:
+            if y.value is None:
+                return None
+            out.append(('one', gfl, y.value, list(y.guards)))
+    return out
+
+
 def collect(ix, R):
     site = 'taurex/model/simplemodel.py::SimpleForwardModel.collect_fitting_parameters'
     stmt = ('fitting parameters are collected from the model, planet, star, pressure, temperature, '
@@ -827,6 +857,19 @@ def collect(ix, R):
                         isinstance(node.func.value, ast.Name) and isinstance(lp.node.target, ast.Name) and \
                         node.func.value.id == lp.node.target.id and not e.guards:
                     contrib += 1
+                elif len(e.loops) == 1 and not e.guards and isinstance(node.func.value, ast.Name) and \
+                        isinstance(lp.node.target, ast.Name) and node.func.value.id == lp.node.target.id and \
+                        _generated_items(ix, f, fl, lp.iter_rf[0]) is not None:
+                    # the components come from a generator method of the model: what it yields, and when
+                    for kind_, gfl_, val_, gs_ in _generated_items(ix, f, fl, lp.iter_rf[0]):
+                        if kind_ == 'each' and gfl_.tab.equal(val_, code(gfl_, 'self.contribution_list')) and not gs_:
+                            contrib += 1
+                            continue
+                        key_ = [k_ for k_ in srcs if kind_ == 'one' and gfl_.tab.equal(val_, code(gfl_, k_))]
+                        if key_ and all(srcs[key_[0]] is not None and guard_is(gfl_, g_, spec(gfl_, srcs[key_[0]]), True) for g_ in gs_):
+                            seen.add(key_[0])
+                        else:
+                            why.append('collects from %s%s' % (fmt(gfl_, val_), ' under %s' % [g_.text() for g_ in gs_] if gs_ else ''))
                 elif len(e.loops) == 1 and not e.guards and atom_of(fl, lp.iter_rf[0]) is not None and \
                         atom_of(fl, lp.iter_rf[0]).head in ('alloc', 'phi', 'call', 'mcall', 'guard', 'mutated'):
                     # the components are first gathered into a sequence (appends, a helper) and then walked:
